@@ -1055,12 +1055,15 @@ fn gen_tuples(g: &GenFont, rng: &mut Rng) -> Option<(Vec<Vec<i16>>, Vec<OwnedTup
         all = all.into_iter().flat_map(|v| c03_gen::COORDS.iter().map(move |c| { let mut w = v.clone(); w.push(*c); w })).collect();
     }
     rng.shuffle(&mut all);
-    let layout = if rng.chance(1, 4) { &g.gpos } else { &g.gsub };
+    // GSUB with FeatureTableSubstitution tables beyond 64 KiB: its first two records cover disjoint
+    // regions, take a tuple from each of them and one more (the default region if there is one)
+    let far_gsub = g.far_gsub_substitutions() >= 2;
+    let layout = if !far_gsub && rng.chance(1, 4) { &g.gpos } else { &g.gsub };
     let mut classes: BTreeMap<Option<usize>, Vec<Vec<i16>>> = BTreeMap::new();
     for t in all {
         classes.entry(layout.select(Some(&t))).or_default().push(t);
     }
-    let n = 2 + rng.below(2);
+    let n = if far_gsub { 3 } else { 2 + rng.below(2) };
     let mut raws: Vec<Vec<i16>> = Vec::new();
     let mut round = 0;
     while raws.len() < n && round < 4 {
@@ -1080,6 +1083,14 @@ fn gen_tuples(g: &GenFont, rng: &mut Rng) -> Option<(Vec<Vec<i16>>, Vec<OwnedTup
         owned.push(fvar.owned_tuple(&v)?);
     }
     Some((raws, owned))
+}
+
+/// Characters no generated cmap maps (and that text preprocessing leaves alone): glyph 0.
+const UNMAPPED: &[char] = &['z', 'x', 'q', '#'];
+
+/// Inside the core the generated-font interpreter models: mapped letters, space, unmapped characters.
+fn modelled_char(c: char) -> bool {
+    c == ' ' || ('a'..='l').contains(&c) || UNMAPPED.contains(&c)
 }
 
 fn mask_tags(bits: u64) -> Vec<u32> {
@@ -1148,6 +1159,32 @@ fn gen_pools(g: &GenFont, ntuples: usize, rng: &mut Rng) -> Pools {
             t.push(DOTTED_CIRCLE);
         }
         texts.push((t, *rng.pick(&scripts)));
+    }
+    // characters the generated cmap does not map (glyph 0, .notdef): always when a lookup acts on
+    // glyph 0, so that .notdef is the first glyph of some runs and comes after other glyphs in others
+    let notdef_lookups = g.gsub.has_format2_coverage_of_glyph0() || g.gpos.has_format2_coverage_of_glyph0();
+    if notdef_lookups || rng.chance(1, 8) {
+        let k = rng.below(texts.len());
+        for (i, (t, _)) in texts.iter_mut().enumerate() {
+            let mut cs: Vec<char> = t.chars().collect();
+            if i == k || rng.chance(1, 3) {
+                // leading .notdef (one or two)
+                cs.insert(0, *rng.pick(UNMAPPED));
+                if rng.chance(1, 4) {
+                    cs.insert(0, *rng.pick(UNMAPPED));
+                }
+            }
+            if rng.chance(1, 3) {
+                let at = 1 + rng.below(cs.len());
+                cs.insert(at, *rng.pick(UNMAPPED));
+            }
+            *t = cs.into_iter().collect();
+        }
+        if texts.len() >= 2 && rng.chance(1, 3) {
+            // the run that is only .notdef
+            let k2 = (k + 1) % texts.len();
+            texts[k2].0 = (0..1 + rng.below(2)).map(|_| *rng.pick(UNMAPPED)).collect();
+        }
     }
     let chars = vec!['a', 'b', ' ', 'z', '\u{2764}'];
     let mut gids: Vec<u16> = (0..4).map(|_| rng.below(g.num_glyphs as usize) as u16).collect();
@@ -1457,8 +1494,8 @@ impl C03 {
             cx.class("gen:fresh-shape-not-ok");
             return;
         }
-        // only texts fully inside the modelled core (mapped letters and space)
-        if s.text.chars().any(|c| !(c == ' ' || ('a'..='l').contains(&c))) {
+        // only texts fully inside the modelled core (mapped letters, space, unmapped characters)
+        if s.text.chars().any(|c| !modelled_char(c)) {
             return;
         }
         let feat = match &s.feat {
@@ -1473,6 +1510,9 @@ impl C03 {
         };
         if run_of(&infos) == expect {
             cx.class("gen:fresh-agrees-with-model");
+            if s.text.chars().any(|c| UNMAPPED.contains(&c)) {
+                cx.class("gen:fresh-agrees-with-model-on-run-with-notdef");
+            }
         } else {
             cx.class("gen:fresh-disagrees-with-model");
             if !self.model_mismatch_flag.replace(true) {
@@ -1497,23 +1537,73 @@ impl C03 {
             .collect();
         let mut gsub_pair = false;
         let mut gpos_pair = false;
+        let model_feat = |f: &Feat| match f {
+            Feat::Mask(m) => c03_gen::Feat::Mask(mask_tags(*m)),
+            Feat::Custom(v) => c03_gen::Feat::Custom(v.iter().map(|x| x.0).collect()),
+        };
+        // .notdef as the first glyph of a shaped run, on a font with a lookup whose format 2
+        // Coverage table covers glyph 0
+        if g.gsub.has_format2_coverage_of_glyph0() || g.gpos.has_format2_coverage_of_glyph0() {
+            cx.class("gen:coverage-format2-covers-glyph0");
+            let mut other_glyphs_before = false;
+            let (mut first, mut changed, mut changed_after) = (false, false, false);
+            for s in &shapes {
+                let text: String = s.text.chars().filter(|c| modelled_char(*c)).collect();
+                let input = g.map_text(&text);
+                if input.first() == Some(&0) {
+                    first = true;
+                    let tuple = s.tuple.and_then(|i| raws.get(i)).map(|v| v.as_slice());
+                    let out = g.model_shape(&text, s.script, s.lang, &model_feat(&s.feat), tuple, s.kerning);
+                    // only lookups that cover glyph 0 (all of them with a format 2 Coverage) can do this
+                    if out.first().map_or(false, |x| x.0 != 0 || x.1 != 0) {
+                        changed = true;
+                        if other_glyphs_before {
+                            changed_after = true;
+                        }
+                    }
+                }
+                if input.iter().any(|x| *x != 0) {
+                    other_glyphs_before = true;
+                }
+            }
+            if first {
+                cx.class("hist:notdef-glyph-shaped-first");
+            }
+            if changed {
+                cx.class("hist:notdef-first-glyph-substituted-or-adjusted");
+            }
+            if changed_after {
+                cx.class("hist:notdef-first-glyph-substituted-or-adjusted-after-runs-with-other-glyphs");
+            }
+        }
+        let far = g.far_gsub_substitutions() >= 2;
+        if far {
+            cx.class("gen:feature-substitution-tables-beyond-64k");
+        }
+        if g.far_gpos_substitutions() >= 2 {
+            cx.class("gen:gpos-feature-substitution-tables-beyond-64k");
+        }
+        let is_far = |fts: &[Option<usize>], r: Option<usize>| r.and_then(|r| fts.get(r).copied().flatten()).map_or(false, |o| o >= 65535);
         for (i, a) in shapes.iter().enumerate() {
             for b in &shapes[..i] {
                 if a.script == b.script && a.lang == b.lang && a.feat == b.feat && a.tuple != b.tuple {
                     let ta = a.tuple.and_then(|i| raws.get(i)).map(|v| v.as_slice());
                     let tb = b.tuple.and_then(|i| raws.get(i)).map(|v| v.as_slice());
-                    let feat = match &a.feat {
-                        Feat::Mask(m) => c03_gen::Feat::Mask(mask_tags(*m)),
-                        Feat::Custom(v) => c03_gen::Feat::Custom(v.iter().map(|x| x.0).collect()),
-                    };
+                    let feat = model_feat(&a.feat);
                     // same text under both tuples: must the run differ?
-                    let text: String = a.text.chars().filter(|c| *c == ' ' || ('a'..='l').contains(c)).collect();
+                    let text: String = a.text.chars().filter(|c| modelled_char(*c)).collect();
                     let ra = g.model_shape(&text, a.script, a.lang, &feat, ta, a.kerning);
                     let rb = g.model_shape(&text, a.script, a.lang, &feat, tb, a.kerning);
                     if ra.iter().map(|x| x.0).ne(rb.iter().map(|x| x.0)) {
                         gsub_pair = true;
                         if matches!(a.feat, Feat::Mask(_)) {
                             cx.class("fv:gsub-mask-two-tuples-must-differ");
+                            // both tuples select a record (two different ones) whose
+                            // FeatureTableSubstitution table lies at or beyond byte 65535 of GSUB
+                            let (ra_rec, rb_rec) = (g.gsub.select(ta), g.gsub.select(tb));
+                            if far && ra_rec != rb_rec && is_far(&g.gsub_fts_at, ra_rec) && is_far(&g.gsub_fts_at, rb_rec) {
+                                cx.class("fv:gsub-mask-two-substitution-tables-beyond-64k-must-differ");
+                            }
                         }
                     }
                     if ra.iter().map(|x| x.1).ne(rb.iter().map(|x| x.1)) {
